@@ -353,3 +353,380 @@ Section KDiv.
       rewrite C. ring.
   Qed.
 End KDiv.
+
+(* the model loop refines the K-level loop and never panics on well-sized arguments *)
+Section DivModel.
+  Context {F K : Type} (o : fops F) (fk : fieldK K) (ok : F -> Prop) (den : F -> K).
+  Hypothesis H : field_ok o fk ok den.
+  Local Notation "0" := (k0 fk).
+  Local Notation "1" := (k1 fk).
+  Local Infix "+" := (kadd fk).
+  Local Infix "*" := (kmul fk).
+  Local Infix "-" := (ksub fk).
+  Local Notation D := (map den).
+  Local Notation okl := (Forall ok).
+  Local Notation peq := (peq fk).
+  Local Notation pzero := (pzero fk).
+  Local Notation padd := (padd fk).
+  Local Notation pmul := (pmul fk).
+  Local Notation pdeg := (pdeg fk).
+  Add Field kfield_PolyDivProofs_DivModel : (kFT fk).
+  Add Ring polyring_PolyDivProofs_DivModel : (poly_ring_theory fk) (setoid (peq_Equivalence fk) (poly_ring_ext fk)).
+
+  Lemma sub_row_D qc ds : ok qc -> okl ds -> forall r, okl r -> (length ds <= length r)%nat ->
+    exists t, pdiv_sub_row o qc ds r = Some t /\ okl t /\ D t = ksub_row fk (den qc) (D ds) (D r).
+  Proof.
+    intros Hq Hds. induction Hds as [|d ds Hd Hds IH]; intros r Hr Hl.
+    - exists r. split; [reflexivity|]. split; [exact Hr|]. destruct r; reflexivity.
+    - destruct r as [|x r]; [cbn in Hl; lia|]. inversion Hr as [|? ? Hx Hr']; subst. cbn [length] in Hl.
+      destruct (IH r Hr' ltac:(lia)) as [t [E1 [E2 E3]]]. cbn [pdiv_sub_row]. rewrite E1.
+      exists (fsub o x (fmul o qc d) :: t). split; [reflexivity|].
+      destruct (fo_mul _ _ _ _ H qc d Hq Hd) as [M1 M2].
+      destruct (fo_sub _ _ _ _ H x (fmul o qc d) Hx M1) as [S1 S2].
+      split; [constructor; assumption|]. cbn [map ksub_row]. rewrite S2, M2, E3. reflexivity.
+  Qed.
+  Lemma div_loop_D dinv ds : ok dinv -> okl ds -> forall n r q, okl r -> okl q -> length r = (n + length ds)%nat ->
+    exists q' r', pdiv_div_loop o n dinv ds r q = Some (q', r') /\ okl q' /\ okl r' /\
+                  (D q', D r') = kdiv_loop fk n (den dinv) (D ds) (D r) (D q).
+  Proof.
+    intros Hdi Hds. induction n as [|n IH]; intros r q Hr Hq Hl.
+    - exists q, r. repeat split; assumption.
+    - destruct r as [|lc r1]; [cbn in Hl; lia|]. inversion Hr as [|? ? Hlc Hr1]; subst. cbn [length] in Hl.
+      cbn [pdiv_div_loop map kdiv_loop].
+      destruct (fo_mul _ _ _ _ H lc dinv Hlc Hdi) as [M1 M2].
+      destruct (fis_zero o (fmul o lc dinv)) eqn:Ez.
+      + apply (is0_iff o fk ok den H _ M1) in Ez.
+        destruct (IH r1 (fmul o lc dinv :: q) Hr1 ltac:(constructor; assumption) ltac:(lia)) as [q' [r' [E1 [E2 [E3 E4]]]]].
+        exists q', r'. split; [exact E1|]. split; [exact E2|]. split; [exact E3|].
+        rewrite E4. cbn [map]. rewrite <- M2, Ez, ksub_row_zero. reflexivity.
+      + destruct (sub_row_D (fmul o lc dinv) ds M1 Hds r1 Hr1 ltac:(lia)) as [t [T1 [T2 T3]]]. rewrite T1.
+        assert (Lt : length t = (n + length ds)%nat).
+        { rewrite <- (map_length den t), T3, ksub_row_length, map_length. lia. }
+        destruct (IH t (fmul o lc dinv :: q) T2 ltac:(constructor; assumption) Lt) as [q' [r' [E1 [E2 [E3 E4]]]]].
+        exists q', r'. split; [exact E1|]. split; [exact E2|]. split; [exact E3|].
+        rewrite E4. cbn [map]. rewrite T3, M2. reflexivity.
+  Qed.
+
+  Lemma firstn_S_nth_error {A} (l : list A) k c : nth_error l k = Some c -> firstn (S k) l = firstn k l ++ [c].
+  Proof.
+    revert k. induction l as [|x l IH]; intros [|k] E; cbn in E; try discriminate.
+    - inversion E. reflexivity.
+    - cbn [firstn app]. f_equal. apply IH. exact E.
+  Qed.
+  (* the reversed normalised divisor starts with the leading coefficient *)
+  Lemma rev_normalize_head d lc : poly_leading_coefficient o d = Some (Some lc) ->
+    exists ds, rev (poly_normalize o d) = lc :: ds /\ Z.of_nat (length ds) = poly_degree o d.
+  Proof.
+    unfold poly_leading_coefficient. destruct (poly_degree o d =? -1) eqn:E0; [discriminate|]. apply Z.eqb_neq in E0.
+    pose proof (degree_ge o d) as G.
+    destruct (idx d (poly_degree o d)) as [c|] eqn:E1; [|discriminate]. intros X. inversion X; subst c. clear X.
+    unfold idx in E1. destruct (poly_degree o d <? 0) eqn:E2; [discriminate|].
+    rewrite (normalize_prefix o d).
+    assert (L : length (poly_normalize o d) = S (Z.to_nat (poly_degree o d))).
+    { unfold poly_degree, zlen in *. lia. }
+    rewrite L, (firstn_S_nth_error d _ lc E1), rev_app_distr. cbn [rev app].
+    exists (rev (firstn (Z.to_nat (poly_degree o d)) d)). split; [reflexivity|].
+    rewrite rev_length, firstn_length.
+    assert (Z.to_nat (poly_degree o d) < length d)%nat by (apply nth_error_Some; rewrite E1; discriminate). lia.
+  Qed.
+  Lemma pshift_nil_peq n : peq (pshift fk n []) [].
+  Proof. apply peq_intro. intros i. rewrite coeff_pshift, !coeff_nil. destruct (i <? n)%nat; reflexivity. Qed.
+
+  (* divide: a = q d + r with deg r < deg d, for every non-zero divisor; no panic *)
+  Theorem naive_divide_spec a d : okl a -> okl d -> ~ pzero (D d) ->
+    exists q r, pdiv_naive_divide o a d = Some (q, r) /\ okl q /\ okl r /\ is_divmod fk (D a) (D d) (D q) (D r).
+  Proof.
+    intros Ha Hd NZ. unfold pdiv_naive_divide.
+    destruct (proj2 (leading_coeff_nonzero o fk ok den H d Hd) NZ) as [lc [E1 [Hlc [E2 E3]]]]. rewrite E1.
+    destruct (fo_inv _ _ _ _ H lc Hlc E3) as [dinv [Ei [Hdi Edi]]]. rewrite Ei.
+    pose proof (degree_pdeg o fk ok den H a Ha) as Da. pose proof (degree_pdeg o fk ok den H d Hd) as Dd.
+    assert (Gd : (0 <= poly_degree o d)%Z) by (rewrite Dd; apply pdeg_nonneg_iff; exact NZ).
+    destruct (poly_degree o a - poly_degree o d <? 0)%Z eqn:Eq.
+    - apply Z.ltb_lt in Eq. exists [], a. split; [reflexivity|]. split; [constructor|]. split; [exact Ha|].
+      split; [cbn [map PolySpec.pmul PolySpec.padd]; reflexivity|]. lia.
+    - apply Z.ltb_ge in Eq.
+      destruct (rev_normalize_head d lc E1) as [ds [R1 R2]].
+      pose proof (normalize_ok o ok a Ha) as Han. pose proof (normalize_ok o ok d Hd) as Hdn.
+      assert (Hds : okl ds).
+      { assert (X : okl (rev (poly_normalize o d))) by (apply Forall_rev; exact Hdn). rewrite R1 in X. inversion X; assumption. }
+      rewrite R1. cbn [tl].
+      set (n := Z.to_nat (poly_degree o a - poly_degree o d + 1)).
+      assert (Ln : length (rev (poly_normalize o a)) = (n + length ds)%nat).
+      { rewrite rev_length. unfold n. unfold poly_degree, zlen in *. lia. }
+      destruct (div_loop_D dinv ds Hdi Hds n (rev (poly_normalize o a)) [] (Forall_rev Han) (Forall_nil _) Ln)
+        as [q' [r' [L1 [L2 [L3 L4]]]]].
+      rewrite L1. exists q', (rev r'). split; [reflexivity|]. split; [exact L2|]. split; [apply Forall_rev; exact L3|].
+      assert (Hinv : den lc * den dinv = 1) by (rewrite Edi; field; exact E3).
+      assert (Ln' : length (D (rev (poly_normalize o a))) = (n + length (D ds))%nat) by (rewrite !map_length; exact Ln).
+      destruct (kdiv_loop_spec fk (den lc) (den dinv) (D ds) Hinv n (D (rev (poly_normalize o a))) (D []) Ln') as [K1 K2].
+      rewrite <- L4 in K1, K2. cbn [fst snd] in K1, K2.
+      (* the divisor polynomial *)
+      assert (Edp : rev (D ds) ++ [den lc] = D (poly_normalize o d)).
+      { rewrite <- (rev_involutive (poly_normalize o d)), R1. cbn [rev]. rewrite map_app, map_rev. reflexivity. }
+      rewrite Edp in K2. cbn [map] in K2. rewrite (pshift_nil_peq n) in K2.
+      rewrite map_rev, rev_involutive in K2.
+      rewrite (normalize_peq o fk ok den H a Ha), (normalize_peq o fk ok den H d Hd) in K2.
+      split.
+      + rewrite map_rev, <- K2. ring.
+      + rewrite map_rev. assert (B : (pdeg (rev (D r')) < Z.of_nat (length ds))%Z).
+        { apply pdeg_length_lt. rewrite rev_length, K1, map_length. lia. }
+        lia.
+  Qed.
+  (* division by zero panics ("divisor should be non-zero") *)
+  Theorem naive_divide_zero_divisor a d : okl d -> pzero (D d) -> pdiv_naive_divide o a d = None.
+  Proof.
+    intros Hd Z. unfold pdiv_naive_divide. rewrite (proj1 (leading_coeff_nonzero o fk ok den H d Hd) Z). reflexivity.
+  Qed.
+  (* hence the result is THE quotient and THE remainder *)
+  Theorem naive_divide_unique a d q r q0 r0 : okl a -> okl d ->
+    pdiv_naive_divide o a d = Some (q, r) -> is_divmod fk (D a) (D d) q0 r0 -> peq (D q) q0 /\ peq (D r) r0.
+  Proof.
+    intros Ha Hd E S0.
+    assert (NZ : ~ pzero (D d)).
+    { intros Z. rewrite (naive_divide_zero_divisor a d Hd Z) in E. discriminate. }
+    destruct (naive_divide_spec a d Ha Hd NZ) as [q' [r' [E' [_ [_ S]]]]]. rewrite E in E'. inversion E'; subst q' r'.
+    exact (is_divmod_unique fk _ _ _ _ _ _ S S0).
+  Qed.
+  Theorem naive_divide_panics_iff a d : okl a -> okl d -> (pdiv_naive_divide o a d = None <-> pzero (D d)).
+  Proof.
+    intros Ha Hd. split.
+    - intros E. destruct (pdeg_neg_iff fk (D d)) as [X _]. destruct (Z.eq_dec (pdeg (D d)) (-1)) as [Y|Y]; [exact (X Y)|].
+      exfalso. assert (NZ : ~ pzero (D d)) by (intros Z; apply pdeg_neg_iff in Z; contradiction).
+      destruct (naive_divide_spec a d Ha Hd NZ) as [q [r [E' _]]]. rewrite E in E'. discriminate.
+    - apply naive_divide_zero_divisor. exact Hd.
+  Qed.
+
+  (* Div, Rem, divide, reduce_long_division *)
+  Theorem div_rem_spec a d : okl a -> okl d -> ~ pzero (D d) ->
+    exists q r, pdiv_divide o a d = Some (q, r) /\ pdiv_div o a d = Some q /\ pdiv_rem o a d = Some r /\
+                pdiv_reduce_long_division o a d = Some r /\ okl q /\ okl r /\ is_divmod fk (D a) (D d) (D q) (D r).
+  Proof.
+    intros Ha Hd NZ. destruct (naive_divide_spec a d Ha Hd NZ) as [q [r [E [Hq [Hr S]]]]]. exists q, r.
+    unfold pdiv_divide, pdiv_div, pdiv_rem, pdiv_reduce_long_division, pdiv_divide. rewrite E. repeat split; try assumption; apply S.
+  Qed.
+  Lemma reduce_long_division_spec a d : okl a -> okl d -> ~ pzero (D d) ->
+    exists r, pdiv_reduce_long_division o a d = Some r /\ okl r /\ is_rem fk (D a) (D d) (D r).
+  Proof.
+    intros Ha Hd NZ. destruct (div_rem_spec a d Ha Hd NZ) as [q [r [_ [_ [_ [E [_ [Hr [S1 S2]]]]]]]]].
+    exists r. split; [exact E|]. split; [exact Hr|]. split; [exists (D q); exact S1|exact S2].
+  Qed.
+End DivModel.
+
+(* ================================================================== 4. clean_divide
+   `pdiv_clean_divide_gen fix1 fix2` over an arbitrary base-field record; the extension field, the transforms and batch
+   inversion are parameters.  Proved here for EVERY value of the cutoff (so for the production 512 and the cfg(test) 0):
+     - the long-division arm (deg d < cutoff): the exact quotient of every clean division; zero divisor = panic;
+     - the removal of the root 0 keeps the division clean with the same quotient and, since 8b5e451, never panics;
+     - the fallback of the NTT arm (since 87d4e9b): whenever a divisor evaluation is zero the exact quotient is returned.
+   The zero-free NTT arm (pointwise division of the two codewords) is not proved here: see C09_clean_divide_full. *)
+Section CleanDivideProofs.
+  Context {F X K : Type} (o : fops F) (ox : fops X) (act : fact F X) (unlift : X -> option F) (offset : X).
+  Variable nttx : list X -> option (list X).
+  Variable inttx : list X -> option (list X).
+  Variable batch_inv : list X -> option (list X).
+  Context (fk : fieldK K) (ok : F -> Prop) (den : F -> K).
+  Hypothesis H : field_ok o fk ok den.
+  Local Notation "0" := (k0 fk).
+  Local Infix "*" := (kmul fk).
+  Local Notation D := (map den).
+  Local Notation okl := (Forall ok).
+  Local Notation peq := (peq fk).
+  Local Notation pzero := (pzero fk).
+  Local Notation pmul := (pmul fk).
+  Local Notation clean := (pdiv_clean_divide_gen o ox act unlift offset nttx inttx batch_inv).
+  Add Field kfield_PolyDivProofs_Clean : (kFT fk).
+  Add Ring polyring_PolyDivProofs_Clean : (poly_ring_theory fk) (setoid (peq_Equivalence fk) (poly_ring_ext fk)).
+
+  Lemma long_division_arm_spec dbg a d q0 : okl a -> okl d -> ~ pzero (D d) -> peq (D a) (pmul q0 (D d)) ->
+    exists q, pdiv_long_division_arm o dbg a d = Some q /\ okl q /\ peq (D q) q0.
+  Proof.
+    intros Ha Hd NZ E. unfold pdiv_long_division_arm.
+    destruct (div_rem_spec o fk ok den H a d Ha Hd NZ) as [q [r [E1 [_ [_ [_ [Hq [Hr S]]]]]]]]. rewrite E1.
+    destruct (is_divmod_of_pdvd fk _ _ _ _ q0 NZ E S) as [Eq Zr].
+    apply (is_zero_iff o fk ok den H r Hr) in Zr. rewrite Zr. cbn [negb]. rewrite andb_false_r.
+    exists q. split; [reflexivity|]. split; [exact Hq|exact Eq].
+  Qed.
+  Lemma long_division_arm_zero_divisor dbg a d : okl d -> pzero (D d) -> pdiv_long_division_arm o dbg a d = None.
+  Proof.
+    intros Hd Z. unfold pdiv_long_division_arm, pdiv_divide. rewrite (naive_divide_zero_divisor o fk ok den H a d Hd Z). reflexivity.
+  Qed.
+
+  (* exact division below the cutoff: every cutoff, with and without debug assertions, every version of the code *)
+  Theorem clean_divide_long_arm_spec fix1 fix2 cutoff dbg a d q0 :
+    okl a -> okl d -> ~ pzero (D d) -> peq (D a) (pmul q0 (D d)) -> (poly_degree o d < cutoff)%Z ->
+    exists q, clean fix1 fix2 cutoff dbg a d = Some q /\ okl q /\ peq (D q) q0.
+  Proof.
+    intros Ha Hd NZ E Hc. unfold pdiv_clean_divide_gen. apply Z.ltb_lt in Hc. rewrite Hc.
+    apply long_division_arm_spec; assumption.
+  Qed.
+  (* the zero divisor panics, as documented (both cutoffs are >= 0) *)
+  Theorem clean_divide_zero_divisor fix1 fix2 cutoff dbg a d : okl d -> pzero (D d) -> (0 <= cutoff)%Z ->
+    clean fix1 fix2 cutoff dbg a d = None.
+  Proof.
+    intros Hd Z Hc. unfold pdiv_clean_divide_gen.
+    assert (E : (poly_degree o d <? cutoff)%Z = true).
+    { apply Z.ltb_lt. apply (degree_neg_pzero o fk ok den H d Hd) in Z. lia. }
+    rewrite E. apply long_division_arm_zero_divisor; assumption.
+  Qed.
+
+  (* removal of the root 0 *)
+  Lemma pmul_cons0_r q p : peq (pmul q (0 :: p)) (0 :: pmul q p).
+  Proof. rewrite (pmul_comm fk q (0 :: p)), pmul_cons0_l. apply peq_cons; [reflexivity|apply pmul_comm]. Qed.
+  Lemma remove_root0_spec fix2 a d q0 a1 d1 : okl a -> okl d -> ~ pzero (D d) -> peq (D a) (pmul q0 (D d)) ->
+    pdiv_remove_root0 o fix2 a d = Some (a1, d1) ->
+    okl a1 /\ okl d1 /\ ~ pzero (D d1) /\ peq (D a1) (pmul q0 (D d1)).
+  Proof.
+    intros Ha Hd NZ E. unfold pdiv_remove_root0. destruct d as [|c0 d']; [intros E9; inversion E9; subst; (split; [|split; [|split]]); assumption|].
+    inversion Hd as [|? ? Hc0 Hd']; subst.
+    destruct (fis_zero o c0) eqn:Ez; [|intros E9; inversion E9; subst; (split; [|split; [|split]]); assumption].
+    apply (is0_iff o fk ok den H c0 Hc0) in Ez. cbn [map] in E, NZ. rewrite Ez in E, NZ.
+    assert (NZ' : ~ pzero (D d')) by (intros Z; apply NZ; apply pzero_cons; split; [reflexivity|exact Z]).
+    rewrite pmul_cons0_r in E.
+    destruct a as [|x0 a'].
+    - destruct fix2; [|discriminate]. intros E9; inversion E9; subst. split; [constructor|]. split; [exact Hd'|]. split; [exact NZ'|].
+      apply peq_intro. intros i. pose proof (peq_elim fk _ _ E (S i)) as Ei. cbn [map] in *. rewrite coeff_cons_S in Ei.
+      rewrite <- Ei. rewrite !coeff_nil. reflexivity.
+    - inversion Ha as [|? ? Hx0 Ha']; subst. cbn [map] in E. apply peq_cons_inv in E. destruct E as [E0 E'].
+      destruct (fis_zero o x0); [|discriminate]. intros E9; inversion E9; subst. (split; [|split; [|split]]); assumption.
+  Qed.
+  (* since 8b5e451 the workaround never panics on a clean division *)
+  Lemma remove_root0_total a d q0 : okl a -> okl d -> peq (D a) (pmul q0 (D d)) ->
+    exists a1 d1, pdiv_remove_root0 o true a d = Some (a1, d1).
+  Proof.
+    intros Ha Hd E. unfold pdiv_remove_root0. destruct d as [|c0 d']; [eexists; eexists; reflexivity|].
+    inversion Hd as [|? ? Hc0 Hd']; subst.
+    destruct (fis_zero o c0) eqn:Ez; [|eexists; eexists; reflexivity].
+    apply (is0_iff o fk ok den H c0 Hc0) in Ez. cbn [map] in E. rewrite Ez, pmul_cons0_r in E.
+    destruct a as [|x0 a']; [eexists; eexists; reflexivity|].
+    inversion Ha as [|? ? Hx0 Ha']; subst. cbn [map] in E. apply peq_cons_inv in E. destruct E as [E0 _].
+    apply (is0_iff o fk ok den H x0 Hx0) in E0. rewrite E0. eexists; eexists; reflexivity.
+  Qed.
+
+  (* the fallback of the NTT arm (code since 87d4e9b): a zero among the divisor evaluations -> long division, exact *)
+  Theorem clean_divide_fallback_spec fix2 cutoff dbg a d q0 a1 d1 av dv :
+    okl a -> okl d -> ~ pzero (D d) -> peq (D a) (pmul q0 (D d)) -> (cutoff <= poly_degree o d)%Z ->
+    pdiv_remove_root0 o fix2 a d = Some (a1, d1) ->
+    pdiv_clean_codewords o ox act offset nttx a1 d1 = Some (av, dv) -> existsb (fis_zero ox) dv = true ->
+    exists q, clean true fix2 cutoff dbg a d = Some q /\ okl q /\ peq (D q) q0.
+  Proof.
+    intros Ha Hd NZ E Hc R C Z. unfold pdiv_clean_divide_gen.
+    apply Z.ltb_ge in Hc. rewrite Hc, R, C, Z. cbn [andb].
+    destruct (remove_root0_spec fix2 a d q0 a1 d1 Ha Hd NZ E R) as [Ha1 [Hd1 [NZ1 E1]]].
+    apply long_division_arm_spec; assumption.
+  Qed.
+End CleanDivideProofs.
+
+(* ---- concrete witnesses (base field BFieldElement, extension XFieldElement, the real transforms of model/Ntt.v),
+   run with the cfg(test) cutoff 0 so that small degrees reach the NTT arm (the model is parametric in the cutoff; the
+   production-cutoff replays of degree >= 512 are in corpus/C09 and were confirmed on the real code).
+     dividend = (x^3 - x + 1)(x + 2), divisor = x^3 - x + 1: long division is clean, quotient x + 2;
+     the divisor vanishes at the coset offset x (a root of x^3 - x + 1). *)
+Definition pdiv_w_divisor : list Z := map bfe_new [1; 18446744069414584320; 0; 1].
+Definition pdiv_w_quotient : list Z := map bfe_new [2; 1].
+Definition pdiv_w_dividend : list Z := poly_mul bfe_ops pdiv_w_divisor pdiv_w_quotient.
+(* HISTORICAL (code before 87d4e9b): panic "Cannot do batch inversion on zero" on a clean division *)
+Lemma clean_divide_v0_refuted :
+  exists a d q, pdiv_naive_divide bfe_ops a d = Some (q, [bfe_zero; bfe_zero; bfe_zero]) /\
+                pdiv_clean_divide_v0 CLEAN_DIVIDE_CUTOFF_THRESHOLD_TEST false a d = None /\
+                pdiv_clean_divide_v0 CLEAN_DIVIDE_CUTOFF_THRESHOLD_TEST true a d = None.
+Proof. exists pdiv_w_dividend, pdiv_w_divisor, pdiv_w_quotient. vm_compute. repeat split. Qed.
+(* HISTORICAL (code before 8b5e451, with or without the first repair): Polynomial::zero() divided by x * (x + 1):
+   index out of bounds on dividend_coefficients[0], although 0 = 0 * d is a clean division *)
+Lemma clean_divide_v1_empty_dividend_refuted :
+  exists d, pdiv_naive_divide bfe_ops [] d = Some ([], []) /\
+            pdiv_clean_divide_v0 CLEAN_DIVIDE_CUTOFF_THRESHOLD_TEST false [] d = None /\
+            pdiv_clean_divide_v1 CLEAN_DIVIDE_CUTOFF_THRESHOLD_TEST false [] d = None.
+Proof. exists (map bfe_new [0; 1; 1]). vm_compute. repeat split. Qed.
+(* the current code on the same inputs, under the cfg(test) cutoff and the production cutoff *)
+Lemma clean_divide_repaired_witnesses :
+  (forall dbg, pdiv_clean_divide CLEAN_DIVIDE_CUTOFF_THRESHOLD_TEST dbg pdiv_w_dividend pdiv_w_divisor = Some pdiv_w_quotient) /\
+  (forall dbg, pdiv_clean_divide CLEAN_DIVIDE_CUTOFF_THRESHOLD_PROD dbg pdiv_w_dividend pdiv_w_divisor = Some pdiv_w_quotient) /\
+  (forall dbg, pdiv_clean_divide CLEAN_DIVIDE_CUTOFF_THRESHOLD_TEST dbg [] (map bfe_new [0; 1; 1]) = Some [bfe_zero]) /\
+  (forall dbg, pdiv_clean_divide CLEAN_DIVIDE_CUTOFF_THRESHOLD_TEST dbg [bfe_zero] (map bfe_new [0; 0; 1]) = Some []).
+Proof. repeat split; intros [|]; vm_compute; reflexivity. Qed.
+
+(* ================================================================== 3. reduce: every arm returns THE remainder *)
+Section ReduceProofs.
+  Context {F K : Type} (o : fops F) (fk : fieldK K) (ok : F -> Prop) (den : F -> K).
+  Hypothesis H : field_ok o fk ok den.
+  Variable ntt : list F -> option (list F).
+  Variable intt : list F -> option (list F).
+  Local Notation "0" := (k0 fk).
+  Local Infix "*" := (kmul fk).
+  Local Notation D := (map den).
+  Local Notation okl := (Forall ok).
+  Local Notation peq := (peq fk).
+  Local Notation pzero := (pzero fk).
+  Local Notation padd := (padd fk).
+  Local Notation pmul := (pmul fk).
+  Local Notation pdeg := (pdeg fk).
+  Add Field kfield_PolyDivProofs_Reduce : (kFT fk).
+  Add Ring polyring_PolyDivProofs_Reduce : (poly_ring_theory fk) (setoid (peq_Equivalence fk) (poly_ring_ext fk)).
+
+  (* modulo a non-zero constant everything is congruent to 0 *)
+  Lemma is_rem_constant_modulus (a m : list K) : pdeg m = 0%Z -> is_rem fk a m [].
+  Proof.
+    intros Hm. split; [|rewrite Hm; change (pdeg []) with (-1)%Z; lia].
+    destruct (coeff_at_pdeg fk m ltac:(lia)) as [C1 C2]. rewrite Hm in C1. change (Z.to_nat 0) with O in C1.
+    set (c := plead fk m) in *.
+    exists (pscale fk (kinv fk c) a). apply peq_intro. intros i. rewrite coeff_padd, coeff_nil, coeff_pmul.
+    rewrite (ksum_single fk _ _ i); [|lia|].
+    - rewrite Nat.sub_diag, C1, coeff_pscale. field. exact C2.
+    - intros j Hj Hne. rewrite (coeff_above_pdeg fk m (i - j)) by lia. ring.
+  Qed.
+  Lemma is_rem_small (a m : list K) : (pdeg a < pdeg m)%Z -> is_rem fk a m a.
+  Proof. intros Hlt. split; [exists []; cbn [PolySpec.pmul PolySpec.padd]; reflexivity|exact Hlt]. Qed.
+
+  (* the arms of `reduce` that do not go through fast_reduce: constant modulus, already reduced, long division *)
+  Theorem reduce_slow_arms_spec a m : okl a -> okl m -> ~ pzero (D m) -> pdiv_reduce_arm o a m <> 3%Z ->
+    exists r, pdiv_reduce o ntt intt a m = Some r /\ okl r /\ is_rem fk (D a) (D m) (D r).
+  Proof.
+    intros Ha Hm NZ. unfold pdiv_reduce_arm, pdiv_reduce.
+    pose proof (degree_pdeg o fk ok den H a Ha) as Da. pose proof (degree_pdeg o fk ok den H m Hm) as Dm.
+    assert (Gm : (0 <= poly_degree o m)%Z) by (rewrite Dm; apply pdeg_nonneg_iff; exact NZ).
+    destruct (poly_degree o m <? 0)%Z eqn:E0; [apply Z.ltb_lt in E0; lia|].
+    destruct (poly_degree o m =? 0)%Z eqn:E1.
+    - intros _. apply Z.eqb_eq in E1. exists []. split; [reflexivity|]. split; [constructor|].
+      apply is_rem_constant_modulus. lia.
+    - destruct (poly_degree o a <? poly_degree o m)%Z eqn:E2.
+      + intros _. apply Z.ltb_lt in E2. exists a. split; [reflexivity|]. split; [exact Ha|]. apply is_rem_small. lia.
+      + destruct (poly_degree o a >? FAST_REDUCE_MAKES_SENSE_MULTIPLE * poly_degree o m)%Z; [intros X; exfalso; apply X; reflexivity|].
+        intros _. apply (reduce_long_division_spec o fk ok den H); assumption.
+  Qed.
+  (* above four times the modulus degree `reduce` IS fast_reduce *)
+  Theorem reduce_fast_arm a m : pdiv_reduce_arm o a m = 3%Z -> pdiv_reduce o ntt intt a m = pdiv_fast_reduce o ntt intt a m.
+  Proof.
+    unfold pdiv_reduce_arm, pdiv_reduce.
+    destruct (poly_degree o m <? 0)%Z; [discriminate|]. destruct (poly_degree o m =? 0)%Z; [discriminate|].
+    destruct (poly_degree o a <? poly_degree o m)%Z; [discriminate|].
+    destruct (poly_degree o a >? FAST_REDUCE_MAKES_SENSE_MULTIPLE * poly_degree o m)%Z; [reflexivity|discriminate].
+  Qed.
+  (* the zero modulus panics ("Cannot divide by zero; needed for reduce.") *)
+  Theorem reduce_zero_modulus a m : okl m -> pzero (D m) -> pdiv_reduce o ntt intt a m = None.
+  Proof.
+    intros Hm Z. unfold pdiv_reduce. apply (degree_neg_pzero o fk ok den H m Hm) in Z.
+    apply Z.ltb_lt in Z. rewrite Z. reflexivity.
+  Qed.
+
+  (* fast_reduce: the early exits are exact; the last stage (long division by the unmultiplied modulus) turns ANY
+     intermediate remainder congruent to the input into THE remainder, by uniqueness.  What is not proved: that the two
+     chunk-wise stages (NTT-friendly multiple, structured multiple) preserve the congruence - see C09_fast_reduce_full. *)
+  Theorem fast_reduce_early_exits a m : okl a -> okl m -> ~ pzero (D m) ->
+    (poly_degree o m = 0 \/ poly_degree o a < poly_degree o m)%Z ->
+    exists r, pdiv_fast_reduce o ntt intt a m = Some r /\ okl r /\ is_rem fk (D a) (D m) (D r).
+  Proof.
+    intros Ha Hm NZ Hc. unfold pdiv_fast_reduce.
+    pose proof (degree_pdeg o fk ok den H a Ha) as Da. pose proof (degree_pdeg o fk ok den H m Hm) as Dm.
+    destruct (poly_degree o m =? 0)%Z eqn:E1.
+    - apply Z.eqb_eq in E1. exists []. split; [reflexivity|]. split; [constructor|]. apply is_rem_constant_modulus. lia.
+    - apply Z.eqb_neq in E1. destruct Hc as [Hc|Hc]; [contradiction|]. apply Z.ltb_lt in Hc. rewrite Hc.
+      apply Z.ltb_lt in Hc. exists a. split; [reflexivity|]. split; [exact Ha|]. apply is_rem_small. lia.
+  Qed.
+  Theorem fast_reduce_final_stage a m ir : okl a -> okl m -> okl ir -> ~ pzero (D m) ->
+    (exists k, peq (D a) (padd (pmul k (D m)) (D ir))) ->
+    exists r, pdiv_reduce_long_division o ir m = Some r /\ okl r /\ is_rem fk (D a) (D m) (D r).
+  Proof.
+    intros Ha Hm Hir NZ Hk. destruct (reduce_long_division_spec o fk ok den H ir m Hir Hm NZ) as [r [E [Hr S]]].
+    exists r. split; [exact E|]. split; [exact Hr|]. exact (is_rem_congr fk _ _ _ _ Hk S).
+  Qed.
+End ReduceProofs.
